@@ -62,6 +62,8 @@ def lsum : List α → α
 def smax (a b : α) : α := if a < b then b else a
 def smin (a b : α) : α := if b < a then b else a
 def sabs (a : α) : α := if a < zero then -a else a
+/-- `np.sign` -/
+def ssign (a : α) : α := if a < zero then -one else if zero < a then one else zero
 end
 
 end Aeic
